@@ -251,7 +251,10 @@ CHECKS['C04'] = dict(
          'counterexample reproduced on the code. Proved for every token-type list in which only types that cannot start on the marked '
          'line precede Quote/List, instantiated for the HTML and Markdown renderer lists. Tied to the code by scanner and '
          'block-buffer correspondence on the original and embedded texts; the metamorphic law itself is also explored on '
-         'the implementation (AST of Document(text) vs Document(embed(text))).',
+         'the implementation (AST of Document(text) vs Document(embed(text))). AT DOCUMENT LEVEL (Props/C04_Document.lean): '
+         'Document of the quoted / list-indented lines is one Quote / one single-item List whose children are the children '
+         'of the document of the text - same tokens, line numbers and definitions (C04_quote_document, '
+         'C04_item_document_partial).',
     note='Trusted: Lean kernel (axioms propext/Classical.choice/Quot.sound at most); correspondence harness; exporter. '
          'Hypotheses of the list half (first character not str.isspace; continuation lines start, after their own '
          'spaces, with a non-isspace character or are spaces-only) and the flag-independence hypothesis of the quote half are '
@@ -271,7 +274,10 @@ CHECKS['C05'] = dict(
          'discarding it, which could register a definition from B; repaired in /repo, the model follows the repaired '
          'code; the exploration now contains the input family that exhibits it.) The implementation is explored by the '
          'metamorphic comparison of Document(A), Document(B), Document(A + blank + B) with line numbers and '
-         'definitions. Model tied to the code by scanner and block-buffer correspondence on A, B and the concatenations.',
+         'definitions. Model tied to the code by scanner and block-buffer correspondence on A, B and the concatenations. '
+         'AT DOCUMENT LEVEL (Props/C05_Document.lean): the token constructors and the inline phase distribute over the '
+         'concatenation and commute with the line shift, so Document(A + blank + B) is A\'s tokens followed by B\'s '
+         'tokens with every line number at every depth shifted (C05_document_eq; with definitions: C05_document_general).',
     note='Trusted: Lean kernel (axioms propext/Classical.choice/Quot.sound at most); correspondence harness; exporter. '
          'Class-level scratch is modelled as recomputed from the line start() saw (checked by correspondence on '
          'concatenated documents, not proved about Python attribute semantics).',
